@@ -6,7 +6,8 @@
     * an exogenous variable `u_j` read by at least two observed variables (or by none) becomes the latent
       `base + j` of the `Scm`, with prior `noise[j]`;
     * an exogenous variable read by exactly one observed variable `v` is PRIVATE to `v` and is summed out:
-          kern v σ = Σ_{private noise a of v} Π_j P(u_j = a_j) · [ f_v(σ pa(v), shared ↦ σ, private ↦ a) = σ v ] ;
+          kern v σ = Σ_{private noise of v} Π_j P(u_j) · [ f_v(σ pa(v), σ noise(v)) = σ v ]      (`sumVars` over the
+          names `base + j` of the private noise) ;
     * `base` must exceed every observed name (so that latent names are fresh): `M.toScm card base`.
 
   Core Lean only: executable (`sem toscm_prdo` of the driver; tools/sem_crosscheck.py compares
@@ -24,33 +25,33 @@ def Model.users (M : Model) (j : Nat) : List Name := M.order.filter fun v => (M.
 /-- `u_j` is private: read by exactly one observed variable -/
 def Model.isPriv (M : Model) (j : Nat) : Bool := (M.users j).length == 1
 
-/-- all value tuples below the given cardinalities -/
-def tuples : List Nat → List (List Nat)
-  | [] => [[]]
-  | c :: cs => (List.range c).flatMap fun k => (tuples cs).map fun t => k :: t
+/-- cardinalities of the induced model: observed names keep theirs, the latent `base + j` has `|noise[j]|` values -/
+def Model.cardS (M : Model) (card : Name → Nat) (base : Nat) : Name → Nat :=
+  fun n => if n < base then card n else (M.noise.getD (n - base) []).length
 
-/-- position of `j` in `l` -/
-def indexOf (l : List Nat) (j : Nat) : Nat :=
-  match l with
-  | [] => 0
-  | a :: r => if a = j then 0 else indexOf r j + 1
+/-- `P(u_{n - base} = k)` -/
+def Model.priorS (M : Model) (base : Nat) : Name → Nat → Rat :=
+  fun n k => (M.noise.getD (n - base) []).getD k 0
 
-/-- `P(v = σ v | pa, shared latents)`: the private noise of `v` pushed forward through `f_v` -/
-def Model.kernOf (M : Model) (base : Nat) (v : Name) (σ : Val) : Rat :=
-  let priv := (M.lat v).filter M.isPriv
-  let pmfs := priv.map fun j => M.noise.getD j []
-  ((tuples (pmfs.map List.length)).map fun a =>
-    let w := ((List.zip pmfs a).map fun (pa : List Rat × Nat) => pa.1.getD pa.2 0).prod
-    let us := (M.lat v).map fun j => if M.isPriv j then a.getD (indexOf priv j) 0 else σ (base + j)
-    if M.f v ((M.pa v).map σ) us = σ v then w else 0).sum
+/-- names of the exogenous variables private to `v` -/
+def Model.privOf (M : Model) (base : Nat) (v : Name) : List Name := ((M.lat v).filter M.isPriv).map (base + ·)
+
+/-- the structural equation of `v` holds at the joint valuation `τ` of observed variables and (named) noise -/
+def Model.eqn (M : Model) (base : Nat) (v : Name) (τ : Val) : Rat :=
+  if M.f v ((M.pa v).map τ) ((M.lat v).map fun j => τ (base + j)) = τ v then 1 else 0
+
+/-- `P(v = σ v | pa, shared latents)`: the private noise of `v` summed out (pushed forward through `f_v`) -/
+def Model.kernOf (M : Model) (card : Name → Nat) (base : Nat) (v : Name) : Val → Rat :=
+  sumVars (M.cardS card base) (M.privOf base v)
+    (fun τ => ((M.privOf base v).map fun n => M.priorS base n (τ n)).prod * M.eqn base v τ)
 
 /-- **the induced semi-Markovian model** -/
 def Model.toScm (M : Model) (card : Name → Nat) (base : Nat) : Scm :=
-  { card := fun n => if n < base then card n else (M.noise.getD (n - base) []).length
+  { card := M.cardS card base
     lat := ((List.range M.noise.length).filter fun j => !M.isPriv j).map (base + ·)
-    prior := fun n k => (M.noise.getD (n - base) []).getD k 0
+    prior := M.priorS base
     latOf := fun v => ((M.lat v).filter fun j => !M.isPriv j).map (base + ·)
-    kern := fun v σ => M.kernOf base v σ }
+    kern := M.kernOf card base }
 
 end Fscm
 end Y0
